@@ -1,2 +1,2 @@
--- Root of the `Invoke` library: models, lemmas, property theorems.
+-- Root of the `Invoke` library (written by tools/mkmanifest.py): every property file.
 import Invoke.Props.C12
